@@ -23,6 +23,13 @@ variable {X Y Z L K : Type}
 def Lawful [Neg L] (t : Transform X Z L) : Prop :=
   (∀ x, t.inv (t.fwd x).1 = (x, -(t.fwd x).2)) ∧ (∀ z, t.fwd (t.inv z).1 = (z, -(t.inv z).2))
 
+/-- The round trip at ONE latent / prime point `z`: the inverse image of `z` maps forward to `z` with the opposite
+log-Jacobian.  This pointwise statement is all the density theorems use (of the flow at the generating latent point, of the
+reparameterisation at the generated x'-point); it follows from `Lawful` but also holds at the generated points of
+reparameterisations that are not globally invertible (boundary inversion, angles, logit outside (0,1)). -/
+def RoundTripAt [Neg L] (t : Transform X Z L) (z : Z) : Prop :=
+  t.fwd (t.inv z).1 = (z, -(t.inv z).2)
+
 /-- two transforms in sequence; log-Jacobians add in the order the maps are applied -/
 def Transform.comp [Add L] (t1 : Transform X Y L) (t2 : Transform Y Z L) : Transform X Z L where
   fwd x := let a := t1.fwd x; let b := t2.fwd a.1; (b.1, a.2 + b.2)
@@ -128,7 +135,13 @@ def triUpper [Add K] [Sub K] [Mul K] [Div K] [Zero K] [Add L] [Neg L] [Zero L] {
 
 /-- `LULinear`: `outputs = lower @ (upper @ x) + bias` with unit-diagonal `lower` (strict part `Lo`) and `upper` with
 diagonal `ud` (strict part `Up`); log|det| is `Σ lg (ud i)` forwards and its negative backwards, as the code
-reports it (independent of the point); the inverse is the two triangular solves. -/
+reports it (independent of the point); the inverse is the two triangular solves.
+This is the `forward_no_cache` / `inverse_no_cache` evaluation path (training mode).  nessai builds the layer with
+`using_cache=True`, so in eval mode glasflow evaluates the SAME function through cached matrices: `F.linear(x, W, bias)`
+with `W = lower @ upper` and `F.linear(y - bias, W⁻¹)` with `W⁻¹` obtained from the same two triangular solves applied to
+the identity; the log|det| is the same expression.  `Props/C08.lean` `lu_linear_cached_path_same_function` proves that
+the forward map equals the product with `W` and that ANY left inverse of it (in particular `y ↦ W⁻¹ (y - b)`) coincides
+with the modelled inverse, so the two paths differ only in floating-point rounding. -/
 def luLinear [Add K] [Sub K] [Mul K] [Div K] [Zero K] [OfNat K 1] [Add L] [Neg L] [Zero L] {n : Nat}
     (lg : K → L) (Lo : Fin n → Fin n → K) (ud : Fin n → K) (Up : Fin n → Fin n → K) (b : Fin n → K) :
     Transform (Fin n → K) (Fin n → K) L :=
